@@ -1031,3 +1031,197 @@ def _do_set_contraction(self, st):
 Machine.do_povm = _do_povm
 Machine.do_resize = _do_resize
 Machine.do_set_contraction = _do_set_contraction
+
+
+# ----------------------------------------------------------------------------------------
+# invalid requests (C17): must be rejected and leave everything as it was
+# ----------------------------------------------------------------------------------------
+def _do_invalid(self, st):
+    import jax.numpy as jnp
+    from photon_weave.operation import (
+        CompositeOperationType,
+        CustomStateOperationType,
+        FockOperationType,
+        Operation,
+        PolarizationOperationType,
+    )
+
+    w = self.w
+    fault = st["fault"]
+    entry = st.get("entry", "state")
+    targets = list(st.get("targets", []))
+    for t in targets:
+        if t not in w.obj:
+            raise Inapplicable("unknown target")
+    dead = [t for t in targets if not self.live(t)]
+    if fault != "use_destroyed" and dead:
+        raise Inapplicable("target destroyed")
+    pre = self.snap()
+    live_t = [t for t in targets if t in pre.where]
+    site = site_of(w, pre, live_t or targets, "ce" if entry.startswith("ce") else entry, "invalid", dict(fault=fault)) if live_t else dict(action="invalid", fault=fault, entry=entry, storage="dead", rep="none", kind=w.kind.get(targets[0], "?") if targets else "?")
+    objs = [w.obj[t] for t in targets]
+    rng_seed = int(st.get("seed", 0))
+
+    def holder():
+        if entry == "state":
+            return objs[0]
+        if entry == "env":
+            return w.envs[w.env_of[targets[0]]]
+        return w.ces[entry]
+
+    expect_false = False
+    if fault in ("kraus_not_tp", "kraus_wrong_size"):
+        self.entry_obj(entry, targets)
+        for t in targets:
+            if w.dim(t) != pre.dim_of(t):
+                raise Inapplicable("undeclared fock dimension")
+        D = int(np.prod([pre.dim_of(t) for t in targets]))
+        if D > 36:
+            raise Inapplicable("too large")
+        if fault == "kraus_not_tp":
+            ks = kraus_ops(rng_seed, D, max(2, st.get("nops", 2)), False)
+            mode = st.get("mode", 0) % 3
+            ks = [1.3 * k for k in ks] if mode == 0 else (ks[:-1] if mode == 1 else [ks[0], 0.5 * ks[1]] + ks[2:])
+        else:
+            ks = kraus_ops(rng_seed, D + 1, st.get("nops", 2), False)
+        jks = [jnp.array(k) for k in ks]
+        fn = (lambda: objs[0].apply_kraus(jks)) if entry == "state" else (lambda: holder().apply_kraus(jks, *objs))
+    elif fault == "povm_wrong_size":
+        self.entry_obj(entry, targets)
+        for t in targets:
+            if w.dim(t) != pre.dim_of(t):
+                raise Inapplicable("undeclared fock dimension")
+        D = int(np.prod([pre.dim_of(t) for t in targets]))
+        if D > 24:
+            raise Inapplicable("too large")
+        ms = [jnp.array(m) for m in povm_ops(rng_seed, D + 1, 2, False)]
+        fn = (lambda: objs[0].measure_POVM(ms)) if entry == "state" else (lambda: holder().measure_POVM(ms, *objs))
+    elif fault == "custom_op_wrong_size":
+        t = targets[0]
+        self.entry_obj(entry, targets)
+        d = pre.dim_of(t)
+        m = jnp.array(actions.seeded_matrix(rng_seed, d + 1, True))
+        if w.kind[t] == "pol":
+            op = Operation(PolarizationOperationType.Custom, operator=m)
+        elif w.kind[t] == "custom":
+            op = Operation(CustomStateOperationType.Custom, operator=m)
+        else:
+            raise Inapplicable("fock custom operators resize the space")
+        fn = self._op_caller(op, entry, targets)
+    elif fault == "op_wrong_kind":
+        t = targets[0]
+        self.entry_obj(entry, targets)
+        k = w.kind[t]
+        wrong = {"pol": Operation(FockOperationType.PhaseShift, phi=0.3), "fock": Operation(PolarizationOperationType.X),
+                 "custom": Operation(PolarizationOperationType.H)}[k]
+        if st.get("mode", 0) % 2 == 1 and k != "custom":
+            wrong = Operation(CustomStateOperationType.Custom, operator=jnp.array(actions.seeded_matrix(rng_seed, pre.dim_of(t), True)))
+        fn = self._op_caller(wrong, entry, targets)
+    elif fault == "outside_container":
+        # a subsystem that does not belong to the composite envelope it is addressed through
+        if not entry.startswith("ce") or entry not in w.ces:
+            raise Inapplicable("needs a composite entry")
+        mem = w.ce_members(entry)
+        outs = [t for t in targets if t not in mem]
+        if not outs:
+            raise Inapplicable("all targets inside")
+        what = st.get("mode", 0) % 3
+        ce = w.ces[entry]
+        if what == 0:
+            kinds = [w.kind[t] for t in targets]
+            if kinds == ["pol", "pol"]:
+                op = Operation(CompositeOperationType.CXPolarization)
+            elif len(targets) == 1:
+                op = actions.make_operation({"pol": dict(type="pol:X"), "fock": dict(type="fock:PhaseShift", params=dict(phi=0.2)),
+                                             "custom": dict(type="custom:Custom", useed=1, unitary=True)}[kinds[0]], [pre.dim_of(targets[0])])
+            else:
+                raise Inapplicable("operand kinds")
+            fn = lambda: ce.apply_operation(op, *objs)
+        elif what == 1:
+            for t in targets:
+                if w.dim(t) != pre.dim_of(t):
+                    raise Inapplicable("undeclared fock dimension")
+            D = int(np.prod([pre.dim_of(t) for t in targets]))
+            jks = [jnp.array(k) for k in kraus_ops(rng_seed, D, 2, False)]
+            fn = lambda: ce.apply_kraus(jks, *objs)
+        else:
+            fn = lambda: ce.combine(*objs)
+    elif fault == "annihilate_vacuum":
+        t = targets[0]
+        if w.kind[t] != "fock":
+            raise Inapplicable("not a fock")
+        self.entry_obj(entry, targets)
+        diag = ref.diag_marginal(pre.rho, pre.dims, pre.names.index(t))
+        if float(np.sum(diag[1:])) != 0.0:
+            raise Inapplicable("not exactly the vacuum")
+        fn = self._op_caller(Operation(FockOperationType.Annihilation), entry, targets)
+    elif fault == "missing_param":
+        typ = [PolarizationOperationType.RX, PolarizationOperationType.U3, FockOperationType.PhaseShift, FockOperationType.Displace,
+               CompositeOperationType.NonPolarizingBeamSplitter, CustomStateOperationType.Custom][st.get("mode", 0) % 6]
+        fn = lambda: Operation(typ)
+    elif fault == "use_destroyed":
+        if not dead:
+            raise Inapplicable("nothing destroyed")
+        t = dead[0]
+        objs = [w.obj[t]]
+        targets = [t]
+        what = st.get("mode", 0) % 4
+        if entry.startswith("ce") and entry not in w.ces:
+            raise Inapplicable("no composite")
+        if what == 0:
+            op = actions.make_operation({"pol": dict(type="pol:X"), "fock": dict(type="fock:PhaseShift", params=dict(phi=0.2))}[w.kind[t]], [2])
+            fn = self._op_caller(op, entry, targets)
+        elif what == 1:
+            d = 2 if w.kind[t] == "pol" else max(2, int(w.obj[t].dimensions))
+            jks = [jnp.array(k) for k in kraus_ops(rng_seed, d, 1, True)]
+            fn = (lambda: objs[0].apply_kraus(jks)) if entry == "state" else (lambda: holder().apply_kraus(jks, *objs))
+        elif what == 2:
+            if entry == "state":
+                fn = lambda: objs[0].measure(separate_measurement=True)
+            elif entry == "env":
+                fn = lambda: holder().measure(objs[0], separate_measurement=True)
+            else:
+                fn = lambda: holder().measure(objs[0], separate_measurement=True)
+        else:
+            d = 2 if w.kind[t] == "pol" else max(2, int(w.obj[t].dimensions))
+            ms = [jnp.array(m) for m in povm_ops(rng_seed, d, 2, True)]
+            fn = (lambda: objs[0].measure_POVM(ms, partial=True)) if entry == "state" else (lambda: holder().measure_POVM(ms, *objs))
+        site["use"] = ["op", "kraus", "measure", "povm"][what]
+    else:
+        raise ValueError(fault)
+
+    SAMPLER.reset()
+    rejected = False
+    ret = None
+    try:
+        ret = libcall(fn)
+    except LibRaised as e:
+        rejected = True
+        site["sig"] = e.sig()
+    try:
+        post = self.snap()
+    except Malformed as m:
+        raise Tagged(["C17"], "graph-broken-by-rejected-call", f"after the invalid request '{fault}' via {entry} on {targets}: {m.reason}", dict(site, what=m.what))
+    if not rejected:
+        raise Tagged(["C17"], "not-rejected", f"invalid request '{fault}' via {entry} on {targets} (storage {site.get('storage')}/{site.get('rep')}) was accepted (returned {type(ret).__name__})", dict(site, what="accepted"))
+    site.pop("sig", None)
+    self.unchanged(pre, post, ["C17"], site)
+    self.labels.append(f"invalid:{fault}:{site.get('entry')}/{site.get('storage')}/{site.get('rep')}")
+    self.nontrivial = self.nontrivial or (site.get("storage") in ("env", "ps") or site.get("rep") in ("vector", "matrix"))
+    return dict(outcome="rejected-ok", pre=pre, post=post, site=site)
+
+
+def _op_caller(self, op, entry, targets):
+    w = self.w
+    objs = [w.obj[t] for t in targets]
+    if entry == "state":
+        return lambda: objs[0].apply_operation(op)
+    if entry == "env":
+        env = w.envs[w.env_of[targets[0]]]
+        return lambda: env.apply_operation(op, *objs)
+    ce = w.ces[entry]
+    return lambda: ce.apply_operation(op, *objs)
+
+
+Machine.do_invalid = _do_invalid
+Machine._op_caller = _op_caller
